@@ -222,11 +222,15 @@ PROPS = {
                 "invite-new-chat, invite-to-chat, join, leave, decline, set-subject, private send (plain / emote); messages of "
                 "{0,1,20,100,8000,8173..8175,8192,10000} bytes (crossing the 8192 limit); after every action each connected client's newly "
                 "received chat transactions (106/113/117/118/119) are compared as a multiset with a reference chat model (text re-implemented "
-                "from the protocol format); for a decline only the audience is asserted; non-trivial = some action whose audience was a "
+                "from the protocol format); for a decline only the audience is asserted; a 'burst' action and TestC12Burst (6 members, 20-40 rounds per "
+                "world) let several members send at the same instant while another member leaves: every staying member must receive every "
+                "line exactly once (handlers of different connections run concurrently); non-trivial = some action whose audience was a "
                 "strict non-empty subset of the connected clients; distinct = hash(history, client specs)",
         "assumptions": ["presence notifications (301/302) are ignored here (C13)", "refuse-private-chat option stays off (C13)", "only members send to / act on a chat; unknown chat ids are hostile input (C03)"],
-        "quick": {"runs": [{"test": "^TestC12$", "shards": 16, "checks": 100, "timeout": 600}]},
-        "thorough": {"runs": [{"test": "^TestC12$", "shards": 16, "checks": 2500, "timeout": 3400}]},
+        "quick": {"runs": [{"test": "^TestC12$", "shards": 10, "checks": 100, "timeout": 600},
+                           {"test": "^TestC12Burst$", "shards": 6, "checks": 25, "timeout": 600}]},
+        "thorough": {"runs": [{"test": "^TestC12$", "shards": 16, "checks": 2500, "timeout": 3400, "group": 0},
+                              {"test": "^TestC12Burst$", "shards": 16, "checks": 400, "timeout": 3400, "group": 1}]},
     },
     "C13": {
         "title": "Presence converges and user IDs address one live user",
